@@ -308,6 +308,59 @@ def h_poscar(coordstyle, symbolic_scale):
     return fn
 
 
+# which quantity of the LAMMPS unit table each per-atom property is expressed in (LAMMPS read_data / dump documentation)
+QUANTITY = {'pos': 'length', 'spos': 'scaled', 'upos': 'length', 'supos': 'scaled', 'charge': 'charge', 'mu': 'dipole', 'mu_mag': 'dipole', 'mass': 'mass', 'density': 'density', 'diameter': 'length', 'radius': 'length',
+            'eradius': 'length', 'cradius': 'length', 'kradius': 'length', 'volume': None, 'velocity': 'velocity', 'ang_velocity': 'ang-vel', 'ang_momentum': 'ang-mom', 'eradial_velocity': 'velocity', 'force': 'force', 'boximage': 'scaled',
+            'torque': ('force', 'length')}
+ID_LIKE = {'a_id', 'atom_id', 'm_id', 'p_id', 'p_id_plus1', 'atype', 'element', 'bflag', 'eflag', 'lflag', 'tflag', 'espin', 'e_id', 'a_template', 'm_template', 'cs_re', 'cs_im'}
+ASTYLES = ['angle', 'atomic', 'body', 'bond', 'charge', 'dipole', 'electron', 'ellipsoid', 'full', 'line', 'meso', 'molecular', 'peri', 'smd', 'sphere', 'template', 'tri', 'wavepacket']
+USTYLES = ['real', 'metal', 'si', 'cgs', 'electron', 'micro', 'nano']
+
+
+def h_tables():
+    """every column of every atom_style / unit style is converted with the unit of ITS quantity (exhaustive enumeration of the
+    conversion tables of the data-file and dump-file writers; the unit strings themselves are decided dimensionally in C09)"""
+    def fn():
+        from atomman.dump.atom_data.atoms_prop_info import atoms_prop_info
+        from atomman.dump.atom_data.velocities_prop_info import velocities_prop_info
+        from atomman.dump.atom_dump.process_prop_info import process_prop_info as dpi
+        from atomman.lammps import style
+        bad = []; n = 0
+        def want(prop, tab):
+            q = QUANTITY.get(prop, 'unknown')
+            if q == 'unknown': return 'unknown'
+            if q is None or q == 'scaled': return q
+            if isinstance(q, tuple): return '*'.join(tab[x] for x in q)
+            return tab.get(q, 'unknown')
+        for un in USTYLES:
+            tab = style.unit(un)
+            for st in ASTYLES:
+                for getter, nm in ((atoms_prop_info, 'Atoms'), (velocities_prop_info, 'Velocities')):
+                    try:
+                        info = getter(st, un)
+                    except KeyError:
+                        continue          # the unit style does not define a quantity this atom style needs (documented LAMMPS limitation)
+                    except Exception as e:
+                        bad.append((nm, st, un, repr(e))); continue
+                    for p in info:
+                        n += 1
+                        pn = p['prop_name']
+                        if pn in ID_LIKE:
+                            if p.get('unit') is not None: bad.append((nm, st, un, pn, 'id-like column with a unit'))
+                            continue
+                        w = want(pn, tab)
+                        if w == 'unknown': continue
+                        if p.get('unit') != w: bad.append((nm, st, un, pn, p.get('unit'), w))
+            for p in dpi(prop_name=['atom_id', 'atype', 'pos', 'spos', 'upos', 'velocity', 'force', 'charge', 'mu', 'radius', 'diameter', 'mass', 'ang_velocity', 'ang_momentum', 'torque'], lammps_units=un):
+                n += 1
+                pn = p['prop_name']
+                if pn in ID_LIKE: continue
+                w = want(pn, tab)
+                if w != 'unknown' and p.get('unit') != w: bad.append(('dump', un, pn, p.get('unit'), w))
+        return [(f'all {n} column entries of the data-file (18 atom styles x 7 unit styles) and dump-file conversion tables use the unit of their quantity', not bad), ('details', not bad or print(bad[:8]) is not None and False)]
+    return fn
+
+
 def pstr(p): return ''.join('T' if x else 'F' for x in p)
 
 
@@ -323,6 +376,7 @@ def cases(tier, seed=0):
     cs.append(Case('data_atomic_metal_TTT_inside', h_data('atomic', 'metal', (True, True, True), False, True), bind=BIND, budget_s=150, timeout_ms=15000, max_paths=400, descr='data file, atoms inside the cell (no image flags)'))
     for un, pbc, var_ in (('metal', (True, True, True), 'pos'), ('si', (True, False, True), 'spos'), ('metal', (False, True, True), 'upos'), ('real', (True, True, False), 'pos')):
         cs.append(Case(f'dumpfile_{un}_{pstr(pbc)}_{var_}', h_dumpfile(un, pbc, var_), bind=BIND, budget_s=150, timeout_ms=15000, max_paths=400, descr=f'LAMMPS dump file: units {un}, pbc {pstr(pbc)}, position columns {var_}'))
+    cs.append(Case('conversion_tables', h_tables(), concrete_only=True, budget_s=60, descr='exhaustive enumeration of the per-atom column conversion tables (unit key per quantity)'))
     cs.append(Case('table', h_table(), bind=BIND, budget_s=120, timeout_ms=15000, descr='generic table with a column-conversion table'))
     for cstyle in ('direct', 'Cartesian'):
         for ss in (False, True):
